@@ -261,7 +261,8 @@ def gen_config(rng, fam, out, i):
     elif fam == "avg":
         for a in range(nacq):
             if a > 0 and rng.random() < 0.35:
-                prog += ["setavg", "0", str(rng.choice([k2 for k2 in (2, 3, 4) if k2 != avg]))]   # another window size
+                # another window size, or averaging switched off (the source then writes straight into the sink's queue) and on again
+                prog += ["setavg", "0", str(rng.choice([k2 for k2 in (1, 2, 3, 4) if k2 != avg]))]
             prog += ["start"]
             if rng.random() < 0.3:
                 prog += monitor_ops(rng, 0, 2) + ["monitor", "0", "-1", "0"]
@@ -404,7 +405,7 @@ def gen_lifecycle(rng, out, i):
     return "\n".join(lines) + "\n"
 
 
-FAMILIES = {"C08": ["lifecycle"], "C04": ["complete", "fullring"], "C05": ["complete", "monitor", "avg"], "C06": ["monitor"], "C07": ["abort", "lifecycle"], "C09": ["fault"], "C10": ["avg"]}
+FAMILIES = {"C08": ["lifecycle"], "C04": ["complete", "fullring", "avg"], "C05": ["complete", "monitor", "avg"], "C06": ["monitor"], "C07": ["abort", "lifecycle"], "C09": ["fault"], "C10": ["avg"]}
 NRUNS = {"quick": 600, "thorough": 6000}
 
 
@@ -905,6 +906,8 @@ def main(prop, tier):
     total_runs = total_events = 0
     fams = FAMILIES[prop]
     small = {"fullring": n // 5, "lifecycle": n // 4 if prop != "C08" else n}   # directed / borrowed families get a fixed share
+    if prop == "C04":
+        small["avg"] = n // 6      # (averaging switched on / off between acquisitions: the plain acquisitions are C04's)
     rest = (n - sum(small[f] for f in fams if f in small)) // max(1, len([f for f in fams if f not in small]))
     for fam in fams:
         stats, allp = run_family(chk, prop, exe, bdir, fam, small.get(fam, rest), rng, fam)
